@@ -200,3 +200,33 @@ pub fn any(rng: &mut Rng) -> (String, Vec<String>) {
         _ => plain(rng),
     }
 }
+
+/// related patterns (same / near-miss bases, different bounds) and names for them, with
+/// repeated names, for the matrix (history independence) check
+pub fn matrix(rng: &mut Rng) -> (Vec<String>, Vec<String>) {
+    let b = base(rng);
+    let nb = near_base(rng, &b);
+    let vs: Vec<String> = (0..4).map(|_| simple_version(rng)).collect();
+    let mut ps = vec![];
+    for _ in 0..rng.range(2, 5) {
+        let bb = match rng.below(3) { 0 => nb.clone(), _ => b.clone() };
+        ps.push(match rng.below(6) {
+            0 => format!("{}{}{}", bb, rng.pick_str(&OPS), rng.pick(&vs)),
+            1 => format!("{}>={}<{}", bb, rng.pick(&vs), rng.pick(&vs)),
+            2 => format!("{}-[0-9]*", bb),
+            3 => format!("{{{},{}}}>={}", b, nb, rng.pick(&vs)),
+            4 => format!("{}-{}", bb, rng.pick(&vs)),
+            _ => { let v0 = rng.pick(&vs).clone(); let m = versions::mutate(rng, &v0, false).replace(['<', '>', '{', '}', '-'], ""); format!("{}{}{}", bb, rng.pick_str(&OPS), m) }
+        });
+    }
+    let mut ns = vec![];
+    for _ in 0..rng.range(3, 7) {
+        let bb = match rng.below(4) { 0 => nb.clone(), _ => b.clone() };
+        let v = match rng.below(3) { 0 => format!("{}nb{}", rng.pick(&vs), rng.below(5)), _ => rng.pick(&vs).clone() };
+        ns.push(format!("{}-{}", bb, v));
+        if rng.chance(1, 3) { let last = ns.last().unwrap().clone(); ns.push(last); }
+    }
+    // a shuffle so that equal names are not always adjacent
+    for i in (1..ns.len()).rev() { let j = rng.below(i + 1); ns.swap(i, j); }
+    (ps, ns)
+}
